@@ -72,21 +72,21 @@ class ExperimentLexer(Lexer):
     KW_GT = r">"
     KW_LT = r"<"
     KW_NE = r"!="
-    KW_IN = r"in"
-    KW_NOT_IN = r"not\s+in"
-    KW_NOT = r"not"
+    KW_IN = r"in\b"
+    KW_NOT_IN = r"not\s+in\b"
+    KW_NOT = r"not\b"
 
-    # reserved kw
-    KW_DEF = r"def"
-    KW_SALT = r"salt"
-    KW_SPLITTERS = r"splitters"
-    KW_IF = r"if"
-    KW_ELIF = r"else\s*if"
-    KW_ELSE = r"else"
-    KW_WEIGHTED = r"weighted"
-    KW_RETURN = r"return"
-    KW_AND = r"and"
-    KW_OR = r"or"
+    # reserved kw (whole words only: order_id, index, android... are identifiers)
+    KW_DEF = r"def\b"
+    KW_SALT = r"salt\b"
+    KW_SPLITTERS = r"splitters\b"
+    KW_IF = r"if\b"
+    KW_ELIF = r"else\s*if\b"
+    KW_ELSE = r"else\b"
+    KW_WEIGHTED = r"weighted\b"
+    KW_RETURN = r"return\b"
+    KW_AND = r"and\b"
+    KW_OR = r"or\b"
 
     # identifiers
     ID = r"[a-zA-Z_][a-zA-Z0-9_]*"
